@@ -380,3 +380,26 @@ Proof.
   intros Hc. replace (x * c * (x * c) + y * c * (y * c) + z * c * (z * c)) with ((c * c) * (x * x + y * y + z * z)) by ring.
   rewrite sqrt_mult; [|nra|nra]. rewrite sqrt_square by lra. reflexivity.
 Qed.
+
+(* /repo commit 36e7d06 rescales the direction by a power of two before normalising it. The model does not mirror that
+   step because it is the identity over the reals: the projection does not depend on the length of the direction. *)
+Lemma vnorm_scale c a : 0 < c -> vnorm ROps (vscale ROps c a) = c * vnorm ROps a.
+Proof.
+  intros Hc. destruct a as [x y z]. unfold vnorm. vunf.
+  replace (c * x * (c * x) + c * y * (c * y) + c * z * (c * z)) with (x * c * (x * c) + y * c * (y * c) + z * c * (z * c)) by ring.
+  apply sqrt_scale3, Hc.
+Qed.
+Lemma project_scale_invariant p ref a c : 0 < c ->
+  project_point_to_line ROps p ref (vscale ROps c a) = project_point_to_line ROps p ref a.
+Proof.
+  intros Hc. unfold project_point_to_line. unfold n0; rops. rewrite vnorm_scale by exact Hc.
+  destruct (Reqb_spec (vnorm ROps a) 0) as [E|N].
+  - rewrite (proj2 (Reqb_true _ _)) by (rewrite E; ring). reflexivity.
+  - rewrite (proj2 (Reqb_false _ _)) by (intros E; apply N; apply Rmult_integral in E; destruct E; [lra|assumption]).
+    f_equal. f_equal. assert (Ha : a <> v0) by (intros ->; apply N, vnorm_zero_iff; reflexivity).
+    assert (Hca : vscale ROps c a <> v0).
+    { intros E. apply N. apply vnorm_zero_iff in E. rewrite vnorm_scale in E by exact Hc.
+      apply Rmult_integral in E. destruct E; [lra|assumption]. }
+    rewrite !vg_project_formula by assumption. pose proof (vnorm2_pos a Ha) as Hp.
+    destruct a as [x y z], (vsub ROps p ref) as [v1 v2 v3]. vunf_in Hp. vec_eq; field; split; nra.
+Qed.
